@@ -369,8 +369,8 @@ def indexFn (item : Val) (idxs : List Val) : M Val := do
         if k == "" then domainErr "empty map key" else
         match assocGet (h.getMap a).items k with
         | some v => pure v
-        | none => allocMap { items := [], order := [] }   -- zero Object → convert → empty *Map
-      | .N _ | .flt _ | .int _ => allocMap { items := [], order := [] }
+        | none => pure .nil       -- a missing key is Nil
+      | .N _ | .flt _ | .int _ => pure .nil   -- a number never matches a string key
       | _ => domainErr "map index kind"
     | _ => domainErr "multi-index"
   | .S _ | .str _ => domainErr "indexing a string yields a byte"
